@@ -69,10 +69,11 @@ def ratio_grid(tier, rnd):
     out += [Fraction(3, 2), Fraction(5, 9), Fraction(1250, 381), Fraction(2, 3), Fraction(1000, 3), Fraction(10 ** 20, 7)]
     out += ["irr"]
     if tier == "quick":
-        keep = [Fraction(1), "irr", Fraction(3, 2), Fraction(1, 1000), Fraction(10 ** 12), Fraction(10 ** 30), Fraction(2 ** 64), Fraction(1, 10 ** 30)]
+        keep = [Fraction(1), "irr", Fraction(3, 2), Fraction(1, 1000), Fraction(10 ** 12), Fraction(10 ** 30), Fraction(2 ** 64), Fraction(1, 10 ** 30),
+                Fraction(10 ** 40)]  # 10^40: the factor no float can hold (known finding N9) is observed on every run
         rest = [x for x in out if x not in keep]
         rnd.shuffle(rest)
-        out = keep + rest[:26]
+        out = keep + rest[:24]
     return out
 
 
